@@ -16,6 +16,7 @@ import (
 	"math"
 	"net"
 	"net/netip"
+	"sort"
 	"strconv"
 	"strings"
 	"sync"
@@ -283,22 +284,38 @@ func kv(toks []string, key string) string {
 
 var discard = slog.New(slog.NewTextHandler(io.Discard, &slog.HandlerOptions{Level: slog.LevelError + 4}))
 
-// execRound runs one round; a round that hits the (generous) deadline is a sandbox problem
-// (machine overloaded, datagram lost), not a behaviour of the code: it is retried from scratch.
+// roundDeadline bounds every real round. On loopback a round takes a millisecond or two (tens of
+// milliseconds under the race detector), so a round that is still running at the deadline
+// although every participant's exchanges were answered did not finish by itself: that is
+// reported as `late=1` (the model always says `late=0`). A round that hits the deadline while
+// some participant is still unanswered is a sandbox problem (machine overloaded, datagram
+// lost), not a behaviour of the code: it is retried from scratch.
+const (
+	roundDeadline = 250 * time.Millisecond
+	roundConfirm  = 2 * time.Second // a late round is re-run with this deadline before it is reported
+)
+
+// execRound runs one round (see roundDeadline).
 func execRound(toks []string) string {
+	deadline := roundDeadline
 	for attempt := 0; ; attempt++ {
-		res, timedOut := execRoundOnce(toks)
+		res, timedOut := execRoundOnce(toks, deadline)
+		if !timedOut && strings.HasSuffix(res, " late=1") && deadline == roundDeadline {
+			// confirm with a much longer deadline before reporting (rules out a stalled machine)
+			deadline = roundConfirm
+			continue
+		}
 		if !timedOut {
 			return res
 		}
-		if attempt == 3 {
+		if attempt == 4 {
 			panic("round timed out")
 		}
 		time.Sleep(200 * time.Millisecond)
 	}
 }
 
-func execRoundOnce(toks []string) (string, bool) {
+func execRoundOnce(toks []string, deadline time.Duration) (string, bool) {
 	if len(toks) != 5 {
 		return "bad-op", false
 	}
@@ -350,7 +367,7 @@ func execRoundOnce(toks []string) (string, bool) {
 
 	laddr := udp.UDPAddr{IA: localIA, Host: &net.UDPAddr{IP: net.ParseIP(localIP).To4()}}
 	raddr := udp.UDPAddr{IA: remoteIA, Host: &net.UDPAddr{IP: net.ParseIP(remoteIP).To4(), Port: 10123}}
-	ctx, cancel := context.WithTimeout(context.Background(), 3*time.Second)
+	ctx, cancel := context.WithTimeout(context.Background(), deadline)
 	defer cancel()
 
 	var (
@@ -363,9 +380,7 @@ func execRoundOnce(toks []string) (string, bool) {
 		_, off, err = client.MeasureClockOffsetSCION(ctx, discard, clients, laddr, raddr, paths)
 		return ""
 	})
-	if ctx.Err() != nil {
-		return "", true
-	}
+	late := ctx.Err() != nil
 
 	mu.Lock()
 	log := append([]probe(nil), cur.log...)
@@ -394,6 +409,29 @@ func execRoundOnce(toks []string) (string, bool) {
 			return "err reset-without-interleaved-reset", false
 		}
 	}
+	if late {
+		// did every participant get all its answers? (participants = clients that sent requests;
+		// there must be min(clients, paths) of them, each with 3 resp. 1 answered exchanges)
+		want := min(len(cs), len(ps))
+		got := 0
+		complete := true
+		for i := range cs {
+			if probes[i] == 0 {
+				continue
+			}
+			got++
+			exp := int64(1)
+			if clients[i].InterleavedMode {
+				exp = 3
+			}
+			if probes[i] != exp {
+				complete = false
+			}
+		}
+		if got != want || !complete {
+			return "", true
+		}
+	}
 	used := sc.pos
 	var head string
 	switch {
@@ -413,8 +451,12 @@ func execRoundOnce(toks []string) (string, bool) {
 		head = "err other:" + strings.ReplaceAll(err.Error(), " ", "_")
 		used = 0
 	}
-	return fmt.Sprintf("%s assign=[%s] reset=%s probes=%s used=%d", head, strings.Join(assign, ","),
-		lib.IntList(resets), lib.IntList(probes), used), false
+	lateFlag := 0
+	if late {
+		lateFlag = 1
+	}
+	return fmt.Sprintf("%s assign=[%s] reset=%s probes=%s used=%d late=%d", head, strings.Join(assign, ","),
+		lib.IntList(resets), lib.IntList(probes), used, lateFlag), false
 }
 
 func exec(t []string) string {
@@ -621,6 +663,97 @@ func genSample(c *lib.Ctx) {
 	}
 }
 
+// genUniform is the counting form of "drawn uniformly" on the real code: for small (k, n) it
+// runs crypto.Sample on every vector of n-k random words taken from [L, 2L), L = lcm(2..n).
+// Such words pass every rejection test (L > 2^32 mod b for every bound b <= n) and are
+// equidistributed modulo every bound, so they enumerate ideal uniform draws exactly; every
+// k-subset of [0, n) must then come out equally often (C15_reservoir_uniform: L^(n-k) / C(n,k)
+// times each).
+func genUniform(c *lib.Ctx) {
+	c.Comment("rand.sample exhaustive uniformity")
+	for _, kn := range [][2]int{{1, 2}, {1, 3}, {2, 3}, {1, 4}, {2, 4}, {3, 4}, {2, 5}, {4, 5}, {3, 5}} {
+		k, n := kn[0], kn[1]
+		L := 1
+		for b := 2; b <= n; b++ {
+			g, x, y := 0, L, b
+			for y != 0 {
+				x, y = y, x%y
+			}
+			g = x
+			L = L / g * b
+		}
+		m := n - k
+		total := 1
+		for i := 0; i < m; i++ {
+			total *= L
+		}
+		if total > 4000 {
+			continue
+		}
+		tally := map[string]int{}
+		var ops []string
+		bad := ""
+		for v := 0; v < total; v++ {
+			var s []byte
+			x := v
+			for i := 0; i < m; i++ {
+				s = append(s, le32(uint32(L+x%L))...)
+				x /= L
+			}
+			s = append(s, le32(uint32(L))...) // spare accepted words
+			s = append(s, le32(uint32(L+1))...)
+			op := fmt.Sprintf("rand.sample %d %d 0 %s", k, n, lib.Hex(s))
+			ans := c.Do(op)
+			if len(ops) < 150 {
+				ops = append(ops, op)
+			}
+			f := strings.Fields(ans)
+			if f[0] != "ok" || len(f) < 3 {
+				bad = "a run did not succeed: " + ans
+				break
+			}
+			arr := make([]int, n)
+			for i := range arr {
+				arr[i] = i
+			}
+			okp := true
+			for _, p := range parsePicks(f[2]) {
+				if p[0] < 0 || p[0] >= n || p[1] < 0 || p[1] >= n {
+					okp = false
+					break
+				}
+				arr[p[0]] = arr[p[1]]
+			}
+			if !okp {
+				bad = "pick out of range: " + ans
+				break
+			}
+			sel := append([]int(nil), arr[:k]...)
+			sort.Ints(sel)
+			tally[fmt.Sprint(sel)]++
+		}
+		c.Count("uniform:k-n-pairs")
+		subsets := 1 // C(n, k)
+		for i := 0; i < k; i++ {
+			subsets = subsets * (n - i) / (i + 1)
+		}
+		if bad == "" {
+			if len(tally) != subsets {
+				bad = fmt.Sprintf("%d of the %d %d-subsets of [0,%d) are ever selected", len(tally), subsets, k, n)
+			}
+			for _, cnt := range tally {
+				if cnt*subsets != total && bad == "" {
+					bad = "the subsets are not selected equally often"
+				}
+			}
+		}
+		if bad != "" {
+			c.Fail("C15:sample:uniform", "over all ideal uniform draw vectors Sample(k, n) does not select every k-subset equally often",
+				ops, map[string]any{"k": k, "n": n, "draw_vectors": total, "subsets": subsets, "tally": tally, "why": bad})
+		}
+	}
+}
+
 func maxI64(a, b int64) int64 {
 	if a > b {
 		return a
@@ -666,6 +799,11 @@ func round(c *lib.Ctx, cs []clientSpec, ps []string, stream []byte, succ []strin
 		return
 	}
 	assign, reset, probes := list(kv(f, "assign")), list(kv(f, "reset")), list(kv(f, "probes"))
+	if kv(f, "late") != "0" {
+		c.Count("round:late")
+		lateRounds++
+		fail("C15:round:late", fmt.Sprintf("the round did not finish by itself although every participant's exchanges were answered: it returned only when its context expired (%v, confirmed with %v)", roundDeadline, roundConfirm))
+	}
 	// participants = min(clients, paths), on pairwise distinct offered positions
 	npart := 0
 	seen := map[string]bool{}
@@ -772,6 +910,10 @@ func round(c *lib.Ctx, cs []clientSpec, ps []string, stream []byte, succ []strin
 	}
 }
 
+// lateRounds counts rounds that ran into the deadline (see roundDeadline); after a few of them
+// the random stream is cut short so that the check stays fast.
+var lateRounds int
+
 func atoi(s string) int { v, _ := strconv.Atoi(s); return v }
 
 func genRounds(c *lib.Ctx) {
@@ -806,6 +948,11 @@ func genRounds(c *lib.Ctx) {
 	c.Comment("mp.round random stream")
 	alphabet := []string{"f0", "f1", "f2", "f3", "f4", "f5", "f6", "f7", "-"}
 	for i := 0; i < c.Scale(3000, 100000); i++ {
+		if lateRounds >= 8 {
+			c.Count("round:skipped-after-late-rounds")
+			c.Comment("random stream cut short: rounds do not finish by themselves")
+			break
+		}
 		nc, np := r.Intn(7), r.Intn(11)
 		switch r.Intn(8) {
 		case 0:
@@ -865,6 +1012,7 @@ func genRounds(c *lib.Ctx) {
 func gen(c *lib.Ctx) {
 	genIntn(c)
 	genSample(c)
+	genUniform(c)
 	if err := world(); err != nil {
 		// retry once in isolation before giving up on the socket-level part
 		c.NotExecuted("mp.round: cannot open loopback sockets on " + pathIP + ": " + err.Error())
